@@ -6,7 +6,8 @@ S = g.Scenario
 
 def spec(tier, seed):
     eof = cs.mberr("Eof")
-    pairs = [(2, S(0, [eof], pt=1, fk=7), S(0, [eof], pt=0, fk=7))]
+    pairs = [(2, S(0, [eof], pt=1, fk=7), S(0, [eof], pt=0, fk=7)),
+             (0, S(0, [eof], pt=0, fk=7), S(cs.hdrerr("InvalidPType"), [], pt=None, fk=7))]
     if tier == "thorough":
         pairs += [(3, S(0, [1, eof], pt=2, fk=7), S(cs.hdrerr("InvalidPType"), [], pt=None, fk=7)),
                   (2, S(0, [(0, 3), eof], pt=0, fk=7), S(0, [(0, 0), eof], pt=1, fk=7)),
@@ -19,9 +20,11 @@ def spec(tier, seed):
         jobs.append(Job("h263", g.c17_name(1, sh, i), 3000, tagged=True, group="two decoders, same history, a third one interleaved",
                         params={"history_A": a.describe(), "history_B": b.describe(), "pre_state_shape": sh},
                         cbmc_args=["--max-field-sensitivity-array-size", "%d" % max(200, n + 8)], allow_uncovered=("one decoder succeeds while the other fails",)))
-    jobs.append(Job("h263", "c17_header_parse_independent", 3000, tagged=False, group="header parser: an earlier call does not influence a later one",
-                    allow_uncovered=("earlier header accepted, later header without optional modes",)))
-    return {"jobs": jobs, "generated": {"h263/src/decoder/state.rs": gen, "h263/src/parser/picture.rs": g.c17_hdr()}, "functions": m.FUNCS, "stubs": m.STUBS,
+    if tier == "thorough":
+        # 20 minutes: thorough tier only
+        jobs.append(Job("h263", "c17_header_parse_independent", 4000, tagged=False, group="header parser: an earlier call does not influence a later one",
+                        allow_uncovered=("earlier header accepted, later header without optional modes",)))
+    return {"jobs": jobs, "generated": {"h263/src/decoder/state.rs": gen, "h263/src/parser/picture.rs": g.c17_hdr() if tier == "thorough" else ""}, "functions": m.FUNCS, "stubs": m.STUBS,
             "rule": "2-safety on the decoder-core step: decoders A1 and A2 start from the same arbitrary state and are fed the same script, a third decoder B (arbitrary other state, other script) runs between them; results (Ok/Err kind), observable state, consumed input must be equal; the lazily initialised option masks equal their defining constants. Scenario pairs enumerated, payload symbolic.",
             "bounds": ["one step per decoder; pictures of one macroblock; %d scenario pairs" % len(pairs)],
             "outside": ["thread interleavings: Kani/CBMC has no concurrency model for Rust threads and no other solver-based engine for Rust threads is installed - the schedules quantifier of C17 is NOT covered; only sequential non-interference is", "hash-order independence cannot be examined on the map model; state.rs never iterates the map (argued)"] + m.OUTSIDE,
